@@ -32,7 +32,13 @@ pub struct Planted {
     pub fault: String,
 }
 
-const FAULTS: [(&str, &str); 8] = [
+const FAULTS: [(&str, &str); 12] = [
+    // faults whose very first instruction fails (operands already in registers): `@` is the
+    // enclosing function's argument, or the top-level local `num5`
+    ("arg-access", "q = @.nofield"),
+    ("arg-index", "q = @[@]"),
+    ("arg-call", "q = @()"),
+    ("arg-throw", "throw @"),
     ("throw", "throw 'boom'"),
     ("bad-index", "q = [1, 2][7]"),
     ("type-mismatch", "q = 1 + nul"),
@@ -91,6 +97,11 @@ pub fn build(data: &[u32]) -> Planted {
     // carriers, innermost first
     let depth = s.below(5) as usize;
     let (fault_name, fault_text) = FAULTS[s.below(FAULTS.len() as u32) as usize];
+    let fault_text = fault_text.replace('@', if depth == 0 { "num5" } else { "a" });
+    let fault_text = fault_text.as_str();
+    // the innermost function may be a generator that fails when resumed after a yield
+    let in_generator = depth > 0 && s.chance(30);
+    let mut generator_for = false;
     let multi = s.chance(25) && matches!(fault_name, "bad-index" | "type-mismatch");
     let mut expected: Vec<usize> = vec![];
     // innermost function holding the fault
@@ -147,9 +158,31 @@ pub fn build(data: &[u32]) -> Planted {
         for level in 0..depth {
             let name = format!("fn{level}");
             let kind = if level == 0 { 0 } else { s.below(5) };
-            if level == 0 {
+            if level == 0 && in_generator {
+                lines.push(format!("gz{level} = |a|"));
+                lines.push("  yield a".into());
+                if s.chance(40) {
+                    filler(&mut s, &mut lines, "  ");
+                }
+                push_fault(&mut lines, &mut expected, "  ");
+                lines.push("  yield a".into());
                 lines.push(format!("{name} = |a|"));
                 filler(&mut s, &mut lines, "  ");
+                if s.chance(50) {
+                    lines.push(format!("  r = gz{level}(a).to_tuple()"));
+                    expected.push(lines.len());
+                } else {
+                    generator_for = true;
+                    lines.push(format!("  for gv in gz{level}(a)"));
+                    expected.push(lines.len());
+                    lines.push("    r = gv".into());
+                }
+                lines.push("  r".into());
+            } else if level == 0 {
+                lines.push(format!("{name} = |a|"));
+                if s.chance(60) {
+                    filler(&mut s, &mut lines, "  ");
+                }
                 push_fault(&mut lines, &mut expected, "  ");
                 lines.push("  a".into());
             } else {
@@ -215,7 +248,7 @@ pub fn build(data: &[u32]) -> Planted {
         expected.push(lines.len());
     }
     lines.push("print 'not reached'".into());
-    Planted { src: lines.join("\n") + "\n", lines: expected, debug_lines, multiline_before, depth, fault: fault_name.to_string() }
+    Planted { src: lines.join("\n") + "\n", lines: expected, debug_lines, multiline_before, depth, fault: if generator_for { format!("{fault_name}+generator-for") } else if in_generator { format!("{fault_name}+generator") } else { fault_name.to_string() } }
 }
 
 pub fn eval_planted(p: &Planted) -> Eval {
@@ -276,6 +309,20 @@ pub fn eval_planted(p: &Planted) -> Eval {
         }
         o
     };
+    // a `for` loop re-throws a generator's error as a string that holds the generator's rendered trace: there
+    // the frames are judged on the rendered message (below), which is what the statement speaks about
+    if p.fault.ends_with("+generator-for") {
+        got = vec![];
+        for l in err.to_string().lines() {
+            if let Some(rest) = l.strip_prefix("--- ") {
+                if let Some((a, _)) = rest.split_once(':') {
+                    if let Ok(a) = a.trim().parse::<usize>() {
+                        got.push(a);
+                    }
+                }
+            }
+        }
+    }
     if collapse(&got) != collapse(&p.lines) {
         ev.fail = Some(Fail::new(
             if got.first() != p.lines.first() { "c12:fault-line" } else { "c12:call-site-lines" },
@@ -352,20 +399,32 @@ fn eval_bad_token(src: &str, seed: u64) -> Eval {
             Token::RoundClose | Token::SquareClose | Token::CurlyClose => brackets -= 1,
             _ => {}
         }
-        // a closing bracket is only unambiguously illegal where no bracket is open
-        if depth_str == 0 && brackets == 0 && t.token == Token::Whitespace && i > 0 && i + 1 < toks.len() && !matches!(toks[i - 1].token, Token::NewLine) && !matches!(toks[i + 1].token, Token::NewLine | Token::CommentSingle | Token::CommentMulti) {
-            sites.push(i);
+        // a closing bracket is only unambiguously illegal where no bracket is open; inside brackets and at
+        // the start of a line (after its indentation) only the tokens that are illegal everywhere are planted
+        if depth_str == 0 && t.token == Token::Whitespace && i > 0 && i + 1 < toks.len() && !matches!(toks[i + 1].token, Token::NewLine | Token::CommentSingle | Token::CommentMulti) {
+            let line_start = matches!(toks[i - 1].token, Token::NewLine);
+            if brackets == 0 && !line_start {
+                sites.push((t.source_bytes.end, t.span.start.line as usize + 1, BAD_TOKENS.len()));
+            } else if brackets > 0 {
+                sites.push((t.source_bytes.end, t.span.start.line as usize + 1, 1));
+            }
+        }
+        // inside brackets also at the very start of an unindented line
+        if depth_str == 0 && brackets > 0 && t.token == Token::NewLine && i + 1 < toks.len() && !matches!(toks[i + 1].token, Token::NewLine | Token::Whitespace | Token::CommentSingle | Token::CommentMulti) {
+            sites.push((t.source_bytes.end, toks[i + 1].span.start.line as usize + 1, 1));
         }
     }
     if sites.is_empty() {
         return Eval { discard: true, ..Default::default() };
     }
-    let site = sites[(fnv(format!("{seed}:site").as_bytes()) % sites.len() as u64) as usize];
-    let tok = BAD_TOKENS[(fnv(format!("{seed}:tok").as_bytes()) % BAD_TOKENS.len() as u64) as usize];
-    let at = toks[site].source_bytes.end;
-    let line = toks[site].span.start.line as usize + 1;
+    let (at, line, n_tok) = sites[(fnv(format!("{seed}:site").as_bytes()) % sites.len() as u64) as usize];
+    let tok = BAD_TOKENS[(fnv(format!("{seed}:tok").as_bytes()) % n_tok as u64) as usize];
     let bad = format!("{}{} {}", &src[..at], tok, &src[at..]);
-    let mut ev = Eval::pass(true).class("planted-bad-token");
+    if koto_parser::Parser::parse(src).is_err() {
+        // only valid programs get a bad token planted
+        return Eval { discard: true, ..Default::default() };
+    }
+    let mut ev = Eval::pass(true).class(if n_tok == 1 { "planted-bad-token-inside-brackets" } else { "planted-bad-token" });
     let mut koto = Koto::default();
     match koto.compile(bad.as_str()) {
         Ok(_) => {
@@ -507,6 +566,11 @@ fn run_shard(ctx: &mut Ctx) {
             let src = print_program(&prog, &layout);
             let case = json!({"kind": "span-order", "src": src});
             ctx.run_case(&case, || eval_span_order(&src));
+            for k in 0..2u64 {
+                let seed = ctx.sub_seed("bad-gen", i) ^ k;
+                let case = json!({"kind": "bad-token", "src": src, "seed": seed});
+                ctx.run_case(&case, || eval_bad_token(&src, seed));
+            }
         }
         let corpus = crate::corpus::load();
         ctx.explore_iter("span-corpus", corpus.iter(), |c| json!({"kind": "span-order", "src": c.text}), |c| eval_span_order(&c.text));
